@@ -6,6 +6,7 @@ which that property's check observes it. Patterns are as wide as the mechanism a
 import json, sys
 
 FIXED = [
+ ("C20","92ff240","mock/examples/same-short-name/*","value-outside-declared-examples","the mock's example table was keyed by the nested message path while the emitted lookups used the bare message name: examples on nested messages were never used and a nested message took the examples of a same-named top-level one"),
  ("C03","d36cb3a","route/base=noslash/*","handler-not-reached","base_path/path without a leading slash made the Go server register a host pattern (or panic at registration) while clients and OpenAPI used a slash-prefixed path"),
  ("C01","d36cb3a","deliver/route/base=noslash/*","handler-not-reached","same defect seen through Go client -> Go server delivery"),
  ("C14","c90a3ff","interchange/feat-nosvc/*","codec-file-missing-in-client","go-client skipped *_encoding.pb.go / *_enum_encoding.pb.go for files without services"),
@@ -186,7 +187,7 @@ mech("openapi-short-schema-names",
 
 mech("openapi-ref-with-slash",
  "flattened discriminated oneof: variant schema names are built from oneof_value; a value containing '/' yields an unresolvable $ref",
- [("C18","oas/{feat,feat-2svc,feat-shared}/oneof_flatten/*",["unresolved-ref"],None)])
+ [("C18","oas/{feat,feat-2svc,feat-shared,feat-twins}/oneof_flatten/*",["unresolved-ref"],None)])
 
 mech("mock-typed-assignments",
  "mock generator assigns its int64/float64/bool/string example selectors to fields of other Go types (int32, float32, optional pointers, repeated slices) and addresses oneof members as plain fields: the mock file does not compile",
@@ -210,7 +211,7 @@ mech("openapi-bounds-through-float64",
 mech("openapi-document-named-by-short-service-name",
  "the OpenAPI plugin names its output <Service>.openapi.<ext> without the proto package: two packages that declare the same service name (the usual v1/v2 layout) in one invocation emit the same file name twice, which protoc rejects; tools that concatenate get an unparsable document",
  [("C18","oas/versions/*",["duplicate-file-name","document-count","unparsable","operation-count"],None),
-  ("C15","determinism/versions/*/openapiv3/{permuted,single-vs-multi}",["nondeterministic"],None)])
+  ("C15","determinism/versions/*/openapiv3*/{permuted,single-vs-multi}",["nondeterministic"],None)])
 
 mech("openapi-inverted-range-as-conjunction",
  "a range rule whose upper bound lies below its lower bound means 'outside the interval' (gt_lt_exclusive etc.); the document publishes both bounds as a conjunction, which no number satisfies",
